@@ -278,7 +278,7 @@ def run(ctx):
         "traces_validated_against_impl": acc.traces,
         "rule": "%d reference documents (flat 1-3 assignments over %d value kinds, 4 assignments with duplicate "
                 "names, group/object with nested object, end names on/off) x every non-empty subset of "
-                "assignments emptied x %d layouts (all <= %d-feature deviations from one-statement-per-line over features %r); each text run on the default loader (tree, placeholder "
+                "assignments emptied x %d layouts (all <= %s-feature deviations (1.5 = all single deviations plus the listed feature pairs and triples) from one-statement-per-line over features %r); each text run on the default loader (tree, placeholder "
                 "lines, errors) and on the strict PVL/ODL/PDS3 parsers (must raise); states = distinct "
                 "(layout, gaps, assignments) neighbourhood classes; non-trivial = all four verdicts as required"
                 % (len(D), len(VALS), len(layouts(dev)), dev, {k: [str(x) for x in v] for k, v in FEATURES.items()}),
